@@ -698,8 +698,147 @@ async fn handover_part(ctx: &Ctx, rng: &mut Rng) {
     }
 }
 
+/// One transport object over its whole life: writes that fail (not connected, peer gone, peer not reading until the
+/// write times out), close, connect to the next socket, mode switches. What each peer reads must be the frames of the
+/// writes that were reported successful on *that* connection, in order, followed at most by the beginning of the one
+/// write that failed last on it.
+async fn transport_part(ctx: &Ctx, rng: &mut Rng) {
+    use edp_client::transport::FramedTransport;
+    use tokio::io::AsyncReadExt;
+    use tokio::net::TcpSocket;
+    for round in 0..ctx.pick(60usize, 3000usize) {
+        if !ctx.time_left() {
+            break;
+        }
+        let lsock = TcpSocket::new_v4().expect("socket");
+        let _ = lsock.set_recv_buffer_size(4096);
+        lsock.bind("127.0.0.1:0".parse().unwrap()).expect("bind");
+        let listener = lsock.listen(8).expect("listen");
+        let addr = listener.local_addr().expect("addr");
+        let mut tr = FramedTransport::new(Duration::from_millis(60));
+        let mut mode = FrameMode::Handshake;
+        let mut history: Vec<String> = Vec::new();
+        let mut msg = |rng: &mut Rng, mode: FrameMode| -> Vec<u8> {
+            let len = match mode {
+                FrameMode::Handshake => *rng.pick(&[0usize, 1, 5, 300, 65535]),
+                FrameMode::Distribution => *rng.pick(&[0usize, 1, 5, 300, 65536, 70_000]),
+            };
+            let mut m = rng.bytes(len);
+            // a recognisable head, so that a witness shows which write a stray frame came from
+            for (i, b) in (round as u32).to_be_bytes().iter().enumerate().take(m.len()) {
+                m[i] = *b;
+            }
+            m
+        };
+        let frame = |mode: FrameMode, m: &[u8]| {
+            let mut f = prefix(mode, m.len());
+            f.extend_from_slice(m);
+            f
+        };
+        let nconn = 1 + rng.below(3);
+        for c in 0..nconn {
+            // writes while there is no connection: must fail, and must leave nothing behind
+            for _ in 0..rng.below(3) {
+                let m = msg(rng, mode);
+                history.push(format!("write({}) unconnected", m.len()));
+                ctx.eval(1);
+                if tr.write(&m).await.is_ok() {
+                    ctx.viol("C05:transport:write-without-a-connection-succeeds", "a write on a transport without a connection was reported successful", json!({"history": history}));
+                }
+            }
+            if rng.chance(1, 3) {
+                mode = if rng.bool() { FrameMode::Handshake } else { FrameMode::Distribution };
+                tr.set_frame_mode(mode);
+                history.push(format!("mode {}", mode_name(mode)));
+            }
+            let csock = TcpSocket::new_v4().expect("socket");
+            let _ = csock.set_send_buffer_size(4096);
+            let (stream, accepted) = tokio::join!(csock.connect(addr), listener.accept());
+            let (stream, (mut peer, _)) = match (stream, accepted) {
+                (Ok(s), Ok(a)) => (s, a),
+                _ => {
+                    ctx.inconclusive("loopback connect failed");
+                    return;
+                }
+            };
+            tr.connect(stream);
+            let fate = rng.below(5); // 0: peer goes away at once; 1: peer does not read until the end; else: reads along
+            history.push(format!("connect #{} ({})", c, ["peer-resets", "peer-stalls", "peer-reads", "peer-reads", "peer-reads"][fate]));
+            let (go_tx, go_rx) = tokio::sync::oneshot::channel::<()>();
+            let reader = tokio::spawn(async move {
+                if fate == 0 {
+                    let _ = peer.set_linger(Some(Duration::from_secs(0)));
+                    drop(peer);
+                    return None;
+                }
+                if fate == 1 {
+                    let _ = go_rx.await;
+                }
+                let mut all = Vec::new();
+                let _ = tokio::time::timeout(Duration::from_secs(20), peer.read_to_end(&mut all)).await;
+                Some(all)
+            });
+            if fate == 0 {
+                tokio::time::sleep(Duration::from_millis(5)).await;
+            }
+            let mut expected: Vec<u8> = Vec::new();
+            let mut tail: Option<Vec<u8>> = None;
+            let mut frames_ok = 0u64;
+            let nw = rng.below(5) + if fate == 0 { 2 } else { 0 };
+            for w in 0..nw {
+                if rng.chance(1, 5) {
+                    mode = if mode == FrameMode::Handshake { FrameMode::Distribution } else { FrameMode::Handshake };
+                    tr.set_frame_mode(mode);
+                    history.push(format!("mode {}", mode_name(mode)));
+                }
+                let m = if fate == 1 && w + 1 == nw && mode == FrameMode::Distribution { let mut big = msg(rng, mode); big.resize(6 << 20, 0xEE); big } else { msg(rng, mode) };
+                let r = tr.write(&m).await;
+                history.push(format!("write({}) -> {}", m.len(), match &r { Ok(()) => "ok".to_string(), Err(e) => format!("error: {}", e).chars().take(60).collect() }));
+                match r {
+                    Ok(()) => {
+                        expected.extend(frame(mode, &m));
+                        frames_ok += 1;
+                    }
+                    Err(_) => {
+                        tail = Some(frame(mode, &m));
+                        break;
+                    }
+                }
+            }
+            tr.close();
+            history.push("close".into());
+            let _ = go_tx.send(());
+            let got = match tokio::time::timeout(Duration::from_secs(30), reader).await {
+                Ok(Ok(g)) => g,
+                _ => {
+                    ctx.inconclusive("peer reader did not finish");
+                    continue;
+                }
+            };
+            ctx.class(&format!("transport/{}/{}", ["peer-resets", "peer-stalls", "peer-reads", "peer-reads", "peer-reads"][fate], if tail.is_some() { "ends-in-failed-write" } else { "all-writes-ok" }));
+            let Some(got) = got else { continue };
+            ctx.eval(frames_ok.max(1));
+            let ok = got.len() >= expected.len()
+                && got[..expected.len()] == expected[..]
+                && match &tail {
+                    None => got.len() == expected.len(),
+                    Some(t) => t.starts_with(&got[expected.len()..]),
+                };
+            if !ok {
+                let at = got.iter().zip(expected.iter()).position(|(a, b)| a != b).unwrap_or(got.len().min(expected.len()));
+                let cause = if got.len() < expected.len() && expected.starts_with(&got) { "frames-missing" } else { "bytes-nobody-wrote-on-this-connection" };
+                ctx.viol(
+                    &format!("C05:transport:{}", cause),
+                    "what the peer read on a connection is not the frames of the writes reported successful on it (followed at most by the beginning of the one that failed last)",
+                    json!({"history": history, "connection": c, "received_len": got.len(), "expected_len": expected.len(), "first_difference_at": at, "received_there": hex_cap(&got[at.min(got.len())..], 48), "expected_there": hex_cap(&expected[at.min(expected.len())..], 48)}),
+                );
+            }
+        }
+    }
+}
+
 pub fn run(ctx: &Ctx) {
-    ctx.rule("cases = message sequences (lengths 0,1,2,255,256,65535,65536,... in both framing modes) written by both framing functions and read back under a scripted transport: ALL 2^(n-1) chunkings of every stream up to 11 (quick) / 15 (thorough) bytes with Pending between chunks, random cuts / 1-byte dribble / cuts around frame boundaries for long streams, over-long declared lengths (allocation measured), EOF at every offset inside a frame; the streaming writer over scripted write transports (every combination of 1..6 bytes accepted by the first two calls, fixed k bytes per call, random scripts; plain and truly vectored transports; Pending between calls) and through an in-memory pipe of every capacity 1..24 bytes against a concurrent reader; plus handshakes whose last message arrives glued to the first distribution frames, read partly through the connection and partly from the read half taken out of it; plus the node's second read loop over a real loopback socket written in scripted slices; evaluations = frames read and judged; distinct = distinct (mode, frame-length classes, chunking style) combinations");
+    ctx.rule("cases = message sequences (lengths 0,1,2,255,256,65535,65536,... in both framing modes) written by both framing functions and read back under a scripted transport: ALL 2^(n-1) chunkings of every stream up to 11 (quick) / 15 (thorough) bytes with Pending between chunks, random cuts / 1-byte dribble / cuts around frame boundaries for long streams, over-long declared lengths (allocation measured), EOF at every offset inside a frame; the streaming writer over scripted write transports (every combination of 1..6 bytes accepted by the first two calls, fixed k bytes per call, random scripts; plain and truly vectored transports; Pending between calls) and through an in-memory pipe of every capacity 1..24 bytes against a concurrent reader; plus handshakes whose last message arrives glued to the first distribution frames, read partly through the connection and partly from the read half taken out of it; plus one transport object over its whole life (writes that fail for want of a connection, because the peer is gone or because it does not read until the write times out; close; connect to the next socket; mode switches), what each peer reads compared with the writes reported successful on that connection; plus the node's second read loop over a real loopback socket written in scripted slices; evaluations = frames read and judged; distinct = distinct (mode, frame-length classes, chunking style) combinations");
     ctx.assume("independent framing model: big-endian length prefix (2 bytes handshake, 4 bytes distribution) followed by the data");
     let rt = tokio::runtime::Builder::new_current_thread().enable_all().build().expect("runtime");
     let mut rng = Rng::derive(ctx.seed, 5, 1);
@@ -708,6 +847,7 @@ pub fn run(ctx: &Ctx) {
             deframer_part(ctx, &mut rng).await;
             writer_part(ctx, &mut rng).await;
             handover_part(ctx, &mut rng).await;
+            transport_part(ctx, &mut rng).await;
             read_half_part(ctx, &mut rng).await;
         })
     });
